@@ -10,6 +10,7 @@ from props import PROPS, budget
 #     X peer close (tcp) / transport close (udp)          Y transport close
 #   result  o=<M<mark>|B<mark>|E|W>,...  w=<wire id seen by the server|->,...  closed=<0|1>
 # kind "pipeline_eol": n sequential exchanges, each answered at once (id exhaustion; > 65536 on one connection)
+# kind "pipeline_burst": end-of-life boundary under concurrency (harness/cmd/implrun/c05b.go), oracle only
 # kind "pipeline_conc": concurrent non-quiescent run, random reordering/duplication/unsolicited/drops/cancels,
 #   judged only by the property's oracle (no model comparison)
 
@@ -241,6 +242,36 @@ def c05_conc_oracle(line, res):
     return None
 
 
+def c05_burst_gen(rng, tier):
+    """end-of-life boundary under concurrency: every connection starts k ids before its end (preset hook) and
+    bursts of n >= k+2 exchanges are released together through the real PipelineTransport"""
+    out = []
+    reps = budget(tier, 3, 40)
+    i = 0
+    for rep in range(reps):
+        for net in ("tcp", "udp"):
+            for k in (0, 1, 2, 3):
+                for n in (k + 2, k + 2 + rng.choice([1, 2, 5]), rng.choice([16, 32, 64])):
+                    rounds = rng.choice([60, 100, 150]) if n < 16 else rng.choice([30, 50])
+                    if k == 0:
+                        rounds = 10
+                    out.append("u%d net=%s k=%d n=%d rounds=%d warm=%d stale=%d seed=%d dd=%d" % (
+                        i, net, k, n, rounds, rng.randrange(2), 0 if rng.random() < 0.15 else 1,
+                        rng.randrange(1 << 30), rng.choice([0, 0, 0, 200])))
+                    i += 1
+    return out
+
+
+def c05_burst_oracle(line, res):
+    r = gens.fields(res)
+    if "viol" in r and r["viol"] != "none":
+        return "boundary burst: " + r["viol"]
+    f = gens.fields(line)
+    if "maxids" in r and int(r["maxids"]) > int(f["k"]):
+        return "a connection with %s ids left carried %s wire ids: wrapped / reused" % (f["k"], r["maxids"])
+    return None
+
+
 PROPS["C05"] = dict(
     kinds=[
         dict(name="pipeline", gen=c05_pipeline_gen, oracle=c05_pipeline_oracle, classify=c05_pipeline_classify,
@@ -248,6 +279,9 @@ PROPS["C05"] = dict(
         dict(name="pipeline_eol", gen=c05_eol_gen, oracle=c05_eol_oracle,
              classify=lambda l, r: gens.fields(l).get("net", "?") + ("+retired" if "retired=1" in r else ""),
              nontrivial=lambda l, r: "retired=1" in r, timeout=900),
+        dict(name="pipeline_burst", gen=c05_burst_gen, oracle=c05_burst_oracle, model=False,
+             classify=lambda l, r: "%s+k%s" % (gens.fields(l).get("net", "?"), gens.fields(l).get("k", "?")),
+             nontrivial=lambda l, r: "viol=none" in r and "ok=0 " not in r, timeout=900),
         dict(name="pipeline_conc", gen=c05_conc_gen, oracle=c05_conc_oracle, model=False,
              classify=lambda l, r: gens.fields(l).get("net", "?") + ("+eol" if gens.fields(l).get("q0", "0") != "0" else ""),
              nontrivial=lambda l, r: "viol=none" in r, timeout=1500),
@@ -256,8 +290,10 @@ PROPS["C05"] = dict(
          "from VERIF_SEED, half over net.Pipe with TCP framing, half over a loopback UDP pair, first wire id 0 or "
          "preset near 65535 through the verif hook; replayed on the real PipelineTransport and through "
          "Pipeline.run_history; distinct = distinct case line; non-trivial = at least one exchange returned a "
-         "message. pipeline_eol: >65536 sequential exchanges on one real connection. pipeline_conc: concurrent "
-         "non-quiescent runs judged by the oracle only.",
+         "message. pipeline_eol: >65536 sequential exchanges on one real connection. pipeline_burst: "
+         "connections preset to 65536-k (k=0..3) and bursts of >= k+2 exchanges released together through the real "
+         "transport, stale replies for ids 0/1, oracle only. pipeline_conc: concurrent non-quiescent runs judged "
+         "by the oracle only.",
     assumptions=["Go mutex / channel / map-under-lock operations are atomic and sequentially consistent (the LTS steps)",
                  "closeWithErr is modelled as one atomic step",
                  "quiescence of the real code between events is detected by a wrapper around the dialled net.Conn "
